@@ -256,6 +256,13 @@ class Seams(object):
             self.probes["nonfinite_input_refused:sp.eig"] += 1
             self.kernel_events.append((full, shape, "refused-nonfinite"))
             raise ValueError("array must not contain infs or NaNs (simulated check_finite)")
+        if kname == "sp.solve" and k.get("overwrite_a"):
+            # SciPy 1.18.1: scipy.linalg.solve(A, b, overwrite_a=True) with an F-contiguous, numerically singular A
+            # segfaults (reproduced stand-alone with a finite 3x3 matrix of rank 2).  scikit_tt only ever passes a
+            # temporary micro-matrix here, so the seam drops overwrite_a; overwrite_b is kept.
+            k = dict(k)
+            k["overwrite_a"] = False
+            self.probes["solve_overwrite_a_stripped"] += 1
         overwrite = bool(k.get("overwrite_a") or k.get("overwrite_b"))
         before = None
         if overwrite and isinstance(a0, np.ndarray):
